@@ -1160,11 +1160,41 @@ func (r *rewriter) genResets() {
 			}
 		}
 	}
+	// init functions run again after the variables (file order): func init() { ... } becomes
+	// func vmcInit_<file>_<k>() plus an init that calls it, and a reset step after all variables
+	k := 0
+	fileTag := strings.NewReplacer(".", "_", "-", "_").Replace(filepath.Base(r.pkg.Fset.Position(r.file.Pos()).Filename))
+	var initCalls []ast.Stmt
+	for _, d := range r.file.Decls {
+		fd, ok := d.(*ast.FuncDecl)
+		if !ok || fd.Recv != nil || fd.Name.Name != "init" || fd.Body == nil {
+			continue
+		}
+		k++
+		name := fmt.Sprintf("vmcInit_%s_%d", fileTag, k)
+		fd.Name = ast.NewIdent(name)
+		initCalls = append(initCalls, &ast.ExprStmt{X: call(ast.NewIdent(name))})
+		reg(1000000+fileIndex(r.pkg, r.file)*1000+k, &ast.ExprStmt{X: call(ast.NewIdent(name))})
+	}
+	if len(initCalls) > 0 {
+		// the real initialisation of the process calls them once, in their original order
+		r.file.Decls = append(r.file.Decls, &ast.FuncDecl{Name: ast.NewIdent("init"), Type: &ast.FuncType{Params: &ast.FieldList{}}, Body: &ast.BlockStmt{List: initCalls}})
+		r.changed = true
+	}
 	if len(stmts) == 0 {
 		return
 	}
 	r.file.Decls = append(r.file.Decls, &ast.FuncDecl{Name: ast.NewIdent("init"), Type: &ast.FuncType{Params: &ast.FieldList{}}, Body: &ast.BlockStmt{List: stmts}})
 	r.changed = true
+}
+
+func fileIndex(p *packages.Package, f *ast.File) int {
+	for i, x := range p.Syntax {
+		if x == f {
+			return i
+		}
+	}
+	return 0
 }
 
 func isVmcSel(e ast.Expr, name string) bool {
@@ -1261,19 +1291,46 @@ func (r *rewriter) rewriteGo(g *ast.GoStmt) ast.Stmt {
 	if fl, ok := c.Fun.(*ast.FuncLit); ok && len(c.Args) == 0 {
 		return &ast.ExprStmt{X: call(r.vmc("Go"), fl)}
 	}
-	// evaluate the function value and the arguments now, run later
+	// evaluate the function value and the arguments now, run later. A declared function
+	// (possibly generic, instantiated by inference at the call) is not a value to be saved: it
+	// is called by name; constants and nil need no early evaluation either (and have no type
+	// of their own to give a temporary).
 	r.nsel++
 	blk := &ast.BlockStmt{}
+	info := r.pkg.TypesInfo
+	var fun ast.Expr
+	declared := false
+	switch f := unparen(c.Fun).(type) {
+	case *ast.Ident:
+		_, declared = info.Uses[f].(*types.Func)
+	case *ast.SelectorExpr:
+		if x, ok := f.X.(*ast.Ident); ok {
+			if _, isPkg := info.Uses[x].(*types.PkgName); isPkg {
+				_, declared = info.Uses[f.Sel].(*types.Func)
+			}
+		}
+	case *ast.IndexExpr, *ast.IndexListExpr:
+		declared = true // explicit instantiation f[T]
+	}
 	fn := fmt.Sprintf("vmcGo%d", r.nsel)
-	blk.List = append(blk.List, &ast.AssignStmt{Lhs: []ast.Expr{ast.NewIdent(fn)}, Tok: token.DEFINE, Rhs: []ast.Expr{c.Fun}})
+	if declared {
+		fun = c.Fun
+	} else {
+		blk.List = append(blk.List, &ast.AssignStmt{Lhs: []ast.Expr{ast.NewIdent(fn)}, Tok: token.DEFINE, Rhs: []ast.Expr{c.Fun}})
+		fun = ast.NewIdent(fn)
+	}
 	var args []ast.Expr
 	for i, a := range c.Args {
+		if tv, ok := info.Types[a]; ok && (tv.Value != nil || tv.IsNil()) {
+			args = append(args, a)
+			continue
+		}
 		an := fmt.Sprintf("vmcGo%d_a%d", r.nsel, i)
 		blk.List = append(blk.List, &ast.AssignStmt{Lhs: []ast.Expr{ast.NewIdent(an)}, Tok: token.DEFINE, Rhs: []ast.Expr{a}})
 		args = append(args, ast.NewIdent(an))
 	}
 	// always through a literal: the function may return values (go x.Close())
-	inner := call(ast.NewIdent(fn), args...)
+	inner := call(fun, args...)
 	if c.Ellipsis.IsValid() {
 		inner.Ellipsis = 1 // go f(a, rest...): keep the spread
 	}
